@@ -1,0 +1,6 @@
+//go:build !verif
+
+package internals
+
+// VerifEmit is a no-op unless the library is built with -tags verif.
+func VerifEmit(kind string, a string, b string, obj any) {}
